@@ -214,6 +214,7 @@ func Lift(s *Script, res []StepResult, tr *Trace) (hist []Api, oks []bool, done 
 		byCall[e.Call] = append(byCall[e.Call], e)
 	}
 	done = make([]int, len(res))
+	buffered := 0 // entries in the writer's buffer (lifted)
 	for i, r := range res {
 		if !r.Executed {
 			done[i] = -1
@@ -231,9 +232,10 @@ func Lift(s *Script, res []StepResult, tr *Trace) (hist []Api, oks []bool, done 
 			}
 			hist = append(hist, Api{Kind: "openfail", J: -1, Trunc: tr})
 			oks = append(oks, false)
-			a := Api{Kind: "write", Key: st.Key, Val: st.Val, Del: st.K == KDelete, J: -1, SyncOK: true}
-			hist = append(hist, a)
-			oks = append(oks, r.OK)
+			for _, it := range st.ItemsOf() {
+				hist = append(hist, Api{Kind: "write", Key: it.Key, Val: it.Val, Del: it.Del, J: -1, SyncOK: true})
+				oks = append(oks, r.OK)
+			}
 			done[i] = len(hist)
 			continue
 		}
@@ -261,10 +263,53 @@ func Lift(s *Script, res []StepResult, tr *Trace) (hist []Api, oks []bool, done 
 			}
 			evs = evs[k:]
 		}
+		if r.Opened {
+			buffered = 0
+		}
+		if st.K == KBatch {
+			// one chronicler.Write call with several treasures: the block header every flush
+			// attempt hands to write(2) says how many entries the buffer held, which tells
+			// which treasure of the batch triggered it
+			items := st.ItemsOf()
+			groups := splitFlushGroups(evs)
+			gi := 0
+			allOK := true
+			first := len(hist)
+			for _, it := range items {
+				a := Api{Kind: "write", Key: it.Key, Val: it.Val, Del: it.Del, J: -1, SyncOK: true}
+				buffered++
+				ok := true
+				if gi < len(groups) && (groups[gi].entries == buffered || groups[gi].entries == -1) {
+					liftFlush(&a, groups[gi].evs)
+					a.SyncOK = true
+					gi++
+					ok = a.J < 0 && !a.HdrFail && !a.Pre
+					if a.J < 0 && !a.Pre {
+						buffered = 0 // the block is in the file (even if the header update failed)
+					}
+				}
+				allOK = allOK && ok
+				hist = append(hist, a)
+				oks = append(oks, ok)
+			}
+			if gi != len(groups) {
+				tr.Bad = append(tr.Bad, fmt.Sprintf("call %d: %d of %d block writes of a batch could not be attributed to a treasure", r.Call, len(groups)-gi, len(groups)))
+				if len(hist) > first {
+					oks[len(oks)-1] = !oks[len(oks)-1] // make the disagreement visible to the model check
+				}
+			} else if allOK != r.OK && len(hist) > first {
+				// the call logged an error although every flush went well (or the other way round)
+				tr.Bad = append(tr.Bad, fmt.Sprintf("call %d: chronicler.Write error log = %v, lifted flush results = %v", r.Call, !r.OK, allOK))
+				oks[len(oks)-1] = !oks[len(oks)-1]
+			}
+			done[i] = len(hist)
+			continue
+		}
 		a := Api{J: -1, SyncOK: true}
 		switch st.K {
 		case KWrite, KDelete:
 			a.Kind, a.Key, a.Val, a.Del = "write", st.Key, st.Val, st.K == KDelete
+			buffered++
 		case KSync:
 			a.Kind = "sync"
 		case KClose:
@@ -274,11 +319,59 @@ func Lift(s *Script, res []StepResult, tr *Trace) (hist []Api, oks []bool, done 
 		if a.Kind == "write" {
 			a.SyncOK = true
 		}
+		if (a.Flushed && a.J < 0 && !a.Pre) || a.Kind == "close" {
+			buffered = 0
+		}
 		hist = append(hist, a)
 		oks = append(oks, r.OK)
 		done[i] = len(hist)
 	}
 	return
+}
+
+type flushGroup struct {
+	entries int // EntryCount of the block header the writer tried to write
+	evs     []Event
+}
+
+// splitFlushGroups cuts the events of one chronicler.Write call into one group per flush
+// attempt: a group starts at the write(2) of a 16-byte block header (successful or not).
+func splitFlushGroups(evs []Event) []flushGroup {
+	var gs []flushGroup
+	var lead []Event
+	truncs := 0 // truncations seen in the current group after its block header
+	for _, e := range evs {
+		if e.Kind == EvWrite && e.Req == BH && len(e.Buf) >= 10 {
+			g := flushGroup{entries: int(binary.LittleEndian.Uint16(e.Buf[8:10]))}
+			g.evs = append(append([]Event{}, lead...), e)
+			lead = nil
+			truncs = 0
+			gs = append(gs, g)
+			continue
+		}
+		if e.Kind == EvTrunc && (len(gs) == 0 || truncs >= 1 || len(lead) > 0) {
+			// not the truncation back of the current group: the retried removal of a dirty tail
+			// at the start of the next flush attempt
+			if e.Ret != 0 {
+				// it failed again: that flush attempt ends here (entries unknown: next treasure)
+				gs = append(gs, flushGroup{entries: -1, evs: append(append([]Event{}, lead...), e)})
+				lead = nil
+				truncs = 1
+				continue
+			}
+			lead = append(lead, e)
+			continue
+		}
+		if e.Kind == EvTrunc {
+			truncs++
+		}
+		if len(gs) == 0 {
+			lead = append(lead, e)
+			continue
+		}
+		gs[len(gs)-1].evs = append(gs[len(gs)-1].evs, e)
+	}
+	return gs
 }
 
 // ---- the model's operation log, rebuilt in Go (fault-free histories only) ------------------
